@@ -5,6 +5,7 @@
  *   init <nloops> <loop-of-h0> <loop-of-h1> ...
  *   script <k> <op>:<h>[:<sig>] ...      ops of the k-th signal callback (global count)
  *   start hN sig | oneshot hN sig | stop hN | close hN | ref hN | unref hN | raise sig | run L
+ *   nestraise A B      raise A; B is raised from inside A's handler (at its pipe write): both must be caught
  *   burst sig N        N guarded raises in a row (large bursts, up to and across the pipe capacity)
  *   runraise L sig [op:h[:sig] ...]
  *                      one loop iteration during which `sig` is raised (and the ops are performed)
@@ -15,6 +16,8 @@
  * that "pointer order" = "id order" as in the model.  Handles are freed in close_cb
  * (a message that outlives its handle is a heap-use-after-free for ASan). */
 #include <fcntl.h>
+#include <sys/syscall.h>
+#include <unistd.h>
 #include <signal.h>
 #include <stdio.h>
 #include <stdlib.h>
@@ -36,6 +39,18 @@ static char* script[MAXK];
 static unsigned ncb;
 static const int SIGS[] = { SIGHUP, SIGUSR1, SIGUSR2, SIGWINCH };
 #define NSIGS 4
+
+/* nestraise A B: B is raised from inside libuv's handler for A, at its write() to the loop's signal pipe.
+ * With every signal blocked in the handler (sa_mask full) B stays pending until A's handler has returned;
+ * otherwise B's handler nests, waits for the signal lock A's handler holds, and the thread hangs. */
+static volatile sig_atomic_t nest_sig;
+ssize_t write(int fd, const void* buf, size_t n) {
+  if (nest_sig) {
+    for (int i = 0; i < nl; i++)
+      if (loops[i] != NULL && fd == loops[i]->signal_pipefd[1]) { int g = nest_sig; nest_sig = 0; raise(g); break; }
+  }
+  return syscall(SYS_write, fd, buf, n);
+}
 
 static int cmpp(const void* a, const void* b) {
   uintptr_t x = (uintptr_t) *(void* const*) a, y = (uintptr_t) *(void* const*) b;
@@ -111,6 +126,15 @@ static void obs(void) {
     struct sigaction sa;
     sigaction(SIGS[j], NULL, &sa);
     printf(" %d=%s", SIGS[j], sa.sa_handler == SIG_DFL ? "dfl" : (sa.sa_flags & SA_RESETHAND) ? "uv/reset" : "uv");
+    if (sa.sa_handler != SIG_DFL) {
+      /* the anchored mechanism: libuv's handler runs with every signal blocked (it takes a lock that a
+       * nested handler on the same thread would wait for forever) and with SA_RESTART.  Deviations only. */
+      int full = 1;
+      for (int g = 1; g < 65; g++)
+        if (g != SIGKILL && g != SIGSTOP && g != 32 && g != 33 && sigismember(&sa.sa_mask, g) != 1) full = 0;
+      if (!full) printf("!nomask");
+      if (!(sa.sa_flags & SA_RESTART)) printf("!norestart");
+    }
   }
   printf("\nobs handles");
   for (int i = 0; i < nh; i++) {
@@ -160,6 +184,20 @@ int main(void) {
         raise(sig);
       }
       printf("raised %d\n", k);
+      obs();
+    } else if (sscanf(line, "nestraise %d %d", &sig, &i) == 2) {
+      struct sigaction sa, sb;
+      if (!known_sig(sig) || !known_sig(i) || sig == i) { printf("bad-op\n"); continue; }
+      sigaction(sig, NULL, &sa); sigaction(i, NULL, &sb);
+      if (sa.sa_handler == SIG_DFL || sb.sa_handler == SIG_DFL) printf("raise skipped-default\n");
+      else {
+        alarm(5);                      /* watchdog: a deadlocked handler never returns (SIGALRM kills the harness) */
+        nest_sig = i;
+        raise(sig);
+        nest_sig = 0;
+        alarm(0);
+        printf("raised 2\n");
+      }
       obs();
     } else if (sscanf(line, "raise %d", &sig) == 1) {
       if (!known_sig(sig)) { printf("bad-op\n"); continue; }
